@@ -410,16 +410,11 @@ impl<T: SharedResource + Add<Output = T> + Sub<Output = T>> SharedResourceState<
         let mut empty_resources = vec![None; route_ctx.route().tour.total()];
 
         route_ctx.state().get_reload_intervals().cloned().unwrap_or_default().into_iter().for_each(
-            |(start_idx, end_idx)| {
+            |(start_idx, _)| {
                 let activity = get_activity_by_idx(route_ctx.route(), start_idx);
-                let has_resource_demand = (self.resource_capacity_fn)(activity).is_some_and(|(_, _)| {
-                    (start_idx..=end_idx)
-                        .filter_map(|idx| route_ctx.route().tour.get(idx))
-                        .filter_map(|activity| activity.job.as_ref())
-                        .any(|job| (self.resource_demand_fn)(job).is_some())
-                });
-
-                if has_resource_demand {
+                // NOTE: every interval which starts with a shared resource reload is blocked, including the ones
+                //       without any resource demand yet
+                if (self.resource_capacity_fn)(activity).is_some() {
                     empty_resources[start_idx] = Some(T::default());
                 }
             },
